@@ -18,7 +18,7 @@ struct Abs {
     keynum: BTreeMap<String, u64>,
     keys: BTreeMap<String, Value>, // keyid -> TUF key object (from any root seen)
     now: i64,
-    by_sha: BTreeMap<String, PathBuf>,
+    by_sha: BTreeMap<String, Vec<u8>>,
 }
 
 /// RSAPublicKey (PKCS#1) inside a SubjectPublicKeyInfo
@@ -115,7 +115,7 @@ impl Abs {
         let h = match m["hashes"]["sha256"].as_str() {
             None => json!({"k": "none"}),
             Some(x) => match self.by_sha.get(&x.to_lowercase()).cloned() {
-                Some(p) if depth < 3 => std::fs::read(&p).map(|b| self.doc(&b, depth + 1)).unwrap_or(json!({"k": "other"})),
+                Some(b) if depth < 3 => self.doc(&b, depth + 1),
                 _ => json!({"k": "other"}),
             },
         };
@@ -157,9 +157,12 @@ impl Abs {
         }
     }
     fn stored(&mut self, dir: &Path, file: &str) -> Value {
-        match std::fs::read(dir.join(file)) {
-            Err(_) => json!({"k": "none"}),
-            Ok(b) => {
+        self.stored_bytes(std::fs::read(dir.join(file)).ok())
+    }
+    fn stored_bytes(&mut self, bytes: Option<Vec<u8>>) -> Value {
+        match bytes {
+            None => json!({"k": "none"}),
+            Some(b) => {
                 let d = self.doc(&b, 9);
                 match d["k"].as_str() {
                     Some("ts") | Some("sn") => json!({"k": d["k"], "v": d["v"], "signers": d["signers"], "pinv": d["pin"]["v"]}),
@@ -191,7 +194,7 @@ async fn one(id: &str, md: &Path, shipped_path: &Path, enforce: bool, cycles: us
     if let Ok(rd) = std::fs::read_dir(md) {
         for e in rd.flatten() {
             if let Ok(b) = std::fs::read(e.path()) {
-                a.by_sha.insert(sha256_hex(&b), e.path());
+                a.by_sha.insert(sha256_hex(&b), b);
             }
         }
     }
@@ -234,6 +237,107 @@ async fn one(id: &str, md: &Path, shipped_path: &Path, enforce: bool, cycles: us
         out.push(json!({"ev": "end", "res": res, "vers": vers, "samples": samples, "store": store, "cap": t.cap_hit()}));
     }
     out
+}
+
+/// the same classification as base::classify, on the Debug and Display strings the load-tracing hook recorded
+fn classify_str(dbg: &str, disp: &str) -> String {
+    if dbg == "ok" {
+        return "ok".into();
+    }
+    let name: String = dbg.chars().take_while(|c| c.is_alphanumeric() || *c == '_').collect();
+    let role = |s: &str| -> String {
+        for r in ["root", "timestamp", "snapshot", "targets"] {
+            if s.starts_with(r) || s.contains(&format!("verify {r} ")) || s.contains(&format!("parse {r} ")) || s.contains(&format!("of {r} metadata")) {
+                return r.to_string();
+            }
+        }
+        String::new()
+    };
+    match name.as_str() {
+        "Transport" => if disp.contains("Maximum size") { "MaxSize".into() } else if disp.contains("Hash mismatch") { "HashMismatch".into() }
+                       else if disp.contains("file not found") { "NotFound".into() } else { "Transport".into() },
+        "ExpiredMetadata" => format!("Expired:{}", role(disp)),
+        "VerifyMetadata" => format!("Verify:{}", role(disp)),
+        "OlderMetadata" => format!("Older:{}", role(disp)),
+        "VersionMismatch" => format!("VersionMismatch:{}", role(disp)),
+        "ParseMetadata" => format!("Parse:{}", role(disp)),
+        other => other.to_string(),
+    }
+}
+
+/// Records written by the load-tracing hook (tough::verif_hooks::traced_load, TOUGH_VERIF_TRACE) while the
+/// repository's own test suite ran, converted to Trace_Client events.
+pub fn suite(args: &[String]) {
+    let dir = PathBuf::from(arg(args, "--dir").expect("--dir"));
+    let out = arg(args, "--out").expect("--out");
+    let now = chrono::Utc::now().timestamp();
+    let mut files: Vec<PathBuf> = std::fs::read_dir(&dir).map(|rd| rd.flatten().map(|e| e.path()).collect()).unwrap_or_default();
+    files.sort();
+    let mut rows = Vec::new();
+    let mut skipped = 0;
+    for f in files {
+        let rec: Value = match std::fs::read(&f).ok().and_then(|b| serde_json::from_slice(&b).ok()) {
+            Some(v) => v,
+            None => { skipped += 1; continue; }
+        };
+        let hexb = |v: &Value| -> Option<Vec<u8>> { v.as_str().and_then(|s| hex::decode(s).ok()) };
+        let mut a = Abs { keynum: BTreeMap::new(), keys: BTreeMap::new(), now, by_sha: BTreeMap::new() };
+        for r in rec["requests"].as_array().cloned().unwrap_or_default() {
+            if let Some(b) = hexb(&r["data"]) {
+                a.by_sha.insert(sha256_hex(&b), b);
+            }
+        }
+        let shipped = hexb(&rec["shipped"]).unwrap_or_default();
+        let shipped_rec = a.doc(&shipped, 0);
+        if shipped_rec["k"] != "root" {
+            skipped += 1; // a test that hands the loader something that is not a root document
+            continue;
+        }
+        let mut base = rec["metadata_base_url"].as_str().unwrap_or("").to_string();
+        if !base.ends_with('/') { base.push('/'); }
+        let id = format!("suite-{}", f.file_stem().unwrap().to_string_lossy());
+        let enforce = rec["enforce"].as_bool().unwrap_or(true);
+        let mut evs = vec![json!({"ev": "reset", "id": id, "chain": [], "thread": rec["thread"], "exe": rec["exe"],
+                                  "limits": {"root": 1, "ts": 1, "sn": 1, "tg": 1, "updates": rec["limits"]["updates"]}}),
+                           json!({"ev": "clock", "now": 0}),
+                           json!({"ev": "start", "shipped": shipped_rec, "enforce": enforce, "now": 0})];
+        let mut accepted = 0;
+        let mut nreq = 0;
+        for r in rec["requests"].as_array().cloned().unwrap_or_default() {
+            let url = r["url"].as_str().unwrap_or("");
+            let name = match url.strip_prefix(&base) { Some(n) => n.to_string(), None => continue };
+            let req = match req_of(&name) { Some(q) => q, None => continue };
+            let data = hexb(&r["data"]).unwrap_or_default();
+            // fetch() itself failed (any kind), the stream failed with "file not found", or it failed otherwise
+            let s = match r["err"].as_str() {
+                Some(e) if e.ends_with("FileNotFound") => json!({"k": "absent"}),
+                Some(e) if e.starts_with("fetch:") => json!({"k": "fetcherr"}),
+                Some(_) => json!({"k": "streamerr"}),
+                None => a.doc(&data, 0),
+            };
+            nreq += 1;
+            if req[0] != "root" { accepted += 1; }
+            evs.push(json!({"ev": req[0], "req": req, "s": s, "now": 0, "pulled": data.len(), "chunks": 1}));
+        }
+        let res = classify_str(rec["result_debug"].as_str().unwrap_or(""), rec["result_display"].as_str().unwrap_or(""));
+        let vers = if res == "ok" { let v = &rec["versions"]; json!({"root": v["root"], "ts": v["ts"], "sn": v["sn"], "tg": v["tg"], "ltg": v["ltg"].as_u64().unwrap_or(0)}) }
+                   else { json!({"root": 0, "ts": 0, "sn": 0, "tg": 0, "ltg": 0}) };
+        // clock samples: the wall clock (tick 0) once for the root and once per document whose expiry was judged
+        let nsamples = if !enforce { 0 } else if res == "ok" { 4 } else {
+            let passed = if accepted > 0 { 1 + (accepted - 1) } else { 0 }; // root + documents before the failing one
+            passed + usize::from(res.starts_with("Expired:") && res != "Expired:root" || res == "Expired:root")
+        };
+        let store = if rec["store_known"] == true {
+            let st = &rec["store"];
+            json!({"ts": a.stored_bytes(hexb(&st["timestamp.json"])), "sn": a.stored_bytes(hexb(&st["snapshot.json"])), "tg": a.stored_bytes(hexb(&st["targets.json"])),
+                   "known": if st["latest_known_time.json"].is_string() { 0 } else { -1 }})
+        } else { json!({"k": "unknown"}) };
+        let _ = nreq;
+        evs.push(json!({"ev": "end", "res": res, "vers": vers, "samples": vec![0; nsamples], "store": store, "cap": false}));
+        rows.extend(evs);
+    }
+    eprintln!("suite traces: {} records skipped", skipped);
+    write_ndjson(&out, &rows);
 }
 
 pub fn run(args: &[String]) {
